@@ -342,7 +342,18 @@ pub fn partial_vs_full<T: Corpus, const N: usize, const K: usize>(input: &[u8; N
         cover!(true, "partial lexer committed an item");
     } else {
         check!(part.start == part.end, "C07: at None the partial lexer reports an empty span");
-        check!(part.start >= start && part.start <= full.start || full.res == 0, "C07: the resume position does not pass the start of the next one-shot item");
+        check!(part.start >= start && part.start <= K, "C07: the resume position lies between the attempt's start and the end of the prefix");
+        check!(part.start <= full.start || full.res == 0, "C07: the resume position does not pass the start of the next one-shot item");
+        // lexing S from the reported position reproduces the one-shot item (the candidates are the concrete positions of the prefix)
+        let mut p = start;
+        while p <= K {
+            if part.start == p && p != start {
+                let resumed = T::run(input, p, false);
+                check!(resumed.res == full.res && resumed.id == full.id && resumed.start == full.start && resumed.end == full.end,
+                       "C07: lexing the whole input from the position reported at None reproduces the one-shot item");
+            }
+            p += 1;
+        }
         cover!(true, "partial lexer asked for more input");
     }
     check!(part.views_ok, "C07: slice()/remainder() consistent in partial mode");
